@@ -4,8 +4,10 @@ import Mathlib.Algebra.CharZero.Defs
 import Mathlib.Tactic.FieldSimp
 
 /-!
-Semantics of the rational fragment in an arbitrary field of characteristic zero,
-and soundness of the numerator/denominator reflection (`fracEq`).
+Semantics of the rational fragment in a field of characteristic zero, and soundness
+of the numerator/denominator reflection (`fracEq`) for every semantics whose
+`+ - * / neg` and literals are the field's (`FieldLike`): `fieldOps K`, and the real
+semantics with `sqrt`, `sin`, … of `Sem/Real.lean`.
 The only side condition of a `fracEq`-proved identity is that every divisor the
 *code* evaluates is non-zero (`E.divOK`): this is what makes "division by zero
 never happens on this path" a proof obligation rather than an artefact of `x/0 = 0`.
@@ -38,6 +40,14 @@ def fieldOps (K : Type) [Field K] : Ops K where
   isnan _ := false
   isinf _ := false
 
+structure FieldLike (o : Ops K) : Prop extends RingLike o where
+  div : ∀ a b, o.div a b = a / b
+  litq : ∀ (n : Int) (d : Nat), o.lit n d = (n : K) / (d : K)
+
+theorem fieldOps_fieldLike : FieldLike (fieldOps K) :=
+  { add := fun _ _ => rfl, sub := fun _ _ => rfl, mul := fun _ _ => rfl, neg := fun _ => rfl,
+    lit := fun n => by simp [fieldOps], div := fun _ _ => rfl, litq := fun _ _ => rfl }
+
 @[simp] theorem fieldOps_lit (n : Int) (d : Nat) : (fieldOps K).lit n d = (n : K) / (d : K) := rfl
 @[simp] theorem fieldOps_add (a b : K) : (fieldOps K).add a b = a + b := rfl
 @[simp] theorem fieldOps_sub (a b : K) : (fieldOps K).sub a b = a - b := rfl
@@ -48,114 +58,100 @@ def fieldOps (K : Type) [Field K] : Ops K where
 /-- value of output component `j` in the field semantics -/
 def Unit.fval (u : Unit) (env : Nat → K) (j : Nat) : K := (u.out j).eval (fieldOps K) env
 
-theorem E.eval_field_eq_ring (e : E) (h : e.isPoly = true) (env : Nat → K) :
-    e.eval (fieldOps K) env = e.eval (ringOps K) env := by
-  induction e with
-  | var i => rfl
-  | lit n d => simp [E.isPoly] at h; simp [E.eval, h]
-  | add a b iha ihb => simp [E.isPoly] at h; simp [E.eval, iha h.1, ihb h.2]
-  | sub a b iha ihb => simp [E.isPoly] at h; simp [E.eval, iha h.1, ihb h.2]
-  | mul a b iha ihb => simp [E.isPoly] at h; simp [E.eval, iha h.1, ihb h.2]
-  | neg a iha => simp [E.isPoly] at h; simp [E.eval, iha h]
-  | _ => simp [E.isPoly] at h
-
 /-- all divisors evaluated by `e` are non-zero -/
-def E.divOK (e : E) (env : Nat → K) : Prop := ∀ d ∈ e.divisors, d.eval (fieldOps K) env ≠ 0
+def E.divOK (o : Ops K) (e : E) (env : Nat → K) : Prop := ∀ d ∈ e.divisors, d.eval o env ≠ 0
 
-theorem mulE_isPoly {a b : E} (ha : a.isPoly = true) (hb : b.isPoly = true) : (mulE a b).isPoly = true := by
-  unfold mulE; split; · exact ha
-  split; · exact hb
-  simp [E.isPoly, ha, hb]
-
-theorem mulE_eval (a b : E) (env : Nat → K) :
-    (mulE a b).eval (fieldOps K) env = a.eval (fieldOps K) env * b.eval (fieldOps K) env := by
+theorem mulE_eval {o : Ops K} (ho : FieldLike o) (a b : E) (env : Nat → K) :
+    (mulE a b).eval o env = a.eval o env * b.eval o env := by
   unfold mulE; split
-  · rename_i h; rw [eq_of_beq h]; simp [E.eval]
+  · rename_i h; rw [eq_of_beq h]; simp [E.eval, ho.lit]
   split
-  · rename_i h; rw [eq_of_beq h]; simp [E.eval]
-  rfl
-
-theorem E.frac_isPoly (e : E) : e.frac.1.isPoly = true ∧ e.frac.2.isPoly = true := by
-  induction e with
-  | add a b iha ihb => exact ⟨by simp [E.frac, E.isPoly, mulE_isPoly, iha.1, iha.2, ihb.1, ihb.2], mulE_isPoly iha.2 ihb.2⟩
-  | sub a b iha ihb => exact ⟨by simp [E.frac, E.isPoly, mulE_isPoly, iha.1, iha.2, ihb.1, ihb.2], mulE_isPoly iha.2 ihb.2⟩
-  | mul a b iha ihb => exact ⟨mulE_isPoly iha.1 ihb.1, mulE_isPoly iha.2 ihb.2⟩
-  | div a b iha ihb => exact ⟨mulE_isPoly iha.1 ihb.2, mulE_isPoly iha.2 ihb.1⟩
-  | neg a iha => exact ⟨by simp [E.frac, E.isPoly, iha.1], iha.2⟩
-  | _ => simp [E.frac, E.isPoly]
+  · rename_i h; rw [eq_of_beq h]; simp [E.eval, ho.lit]
+  simp [E.eval, ho.mul]
 
 variable [CharZero K]
 
 /-- numerator/denominator form is correct wherever the code's own divisions are defined -/
-theorem E.frac_sound (e : E) (hr : e.isRat = true) (env : Nat → K) (hd : e.divOK env) :
-    e.frac.2.eval (fieldOps K) env ≠ 0 ∧
-    e.eval (fieldOps K) env = e.frac.1.eval (fieldOps K) env / e.frac.2.eval (fieldOps K) env := by
+theorem E.frac_sound {o : Ops K} (ho : FieldLike o) (e : E) (hr : e.litsOK = true) (env : Nat → K)
+    (hd : e.divOK o env) :
+    e.frac.2.eval o env ≠ 0 ∧ e.eval o env = e.frac.1.eval o env / e.frac.2.eval o env := by
   induction e with
-  | var i => simp [E.frac, E.eval]
   | lit n d =>
-    simp [E.isRat] at hr
-    simp [E.frac, E.eval, hr]
+    simp [E.litsOK] at hr
+    simp [E.frac, E.eval, ho.litq, hr]
   | add a b iha ihb =>
-    simp only [E.isRat, Bool.and_eq_true] at hr
+    simp only [E.litsOK, Bool.and_eq_true] at hr
     have ⟨ha0, ha⟩ := iha hr.1 (fun d hd' => hd d (by simp [E.divisors, hd']))
     have ⟨hb0, hb⟩ := ihb hr.2 (fun d hd' => hd d (by simp [E.divisors, hd']))
-    refine ⟨by simp [E.frac, mulE_eval, ha0, hb0], ?_⟩
-    simp only [E.frac, E.eval, fieldOps_add, mulE_eval]; rw [ha, hb]; field_simp
+    refine ⟨by simp [E.frac, mulE_eval ho, ha0, hb0], ?_⟩
+    simp only [E.frac, E.eval, ho.add, mulE_eval ho]; rw [ha, hb]; field_simp
   | sub a b iha ihb =>
-    simp only [E.isRat, Bool.and_eq_true] at hr
+    simp only [E.litsOK, Bool.and_eq_true] at hr
     have ⟨ha0, ha⟩ := iha hr.1 (fun d hd' => hd d (by simp [E.divisors, hd']))
     have ⟨hb0, hb⟩ := ihb hr.2 (fun d hd' => hd d (by simp [E.divisors, hd']))
-    refine ⟨by simp [E.frac, mulE_eval, ha0, hb0], ?_⟩
-    simp only [E.frac, E.eval, fieldOps_sub, mulE_eval]; rw [ha, hb]; field_simp
+    refine ⟨by simp [E.frac, mulE_eval ho, ha0, hb0], ?_⟩
+    simp only [E.frac, E.eval, ho.sub, mulE_eval ho]; rw [ha, hb]; field_simp
   | mul a b iha ihb =>
-    simp only [E.isRat, Bool.and_eq_true] at hr
+    simp only [E.litsOK, Bool.and_eq_true] at hr
     have ⟨ha0, ha⟩ := iha hr.1 (fun d hd' => hd d (by simp [E.divisors, hd']))
     have ⟨hb0, hb⟩ := ihb hr.2 (fun d hd' => hd d (by simp [E.divisors, hd']))
-    refine ⟨by simp [E.frac, mulE_eval, ha0, hb0], ?_⟩
-    simp only [E.frac, E.eval, fieldOps_mul, mulE_eval]; rw [ha, hb]; field_simp
+    refine ⟨by simp [E.frac, mulE_eval ho, ha0, hb0], ?_⟩
+    simp only [E.frac, E.eval, ho.mul, mulE_eval ho]; rw [ha, hb]; field_simp
   | div a b iha ihb =>
-    simp only [E.isRat, Bool.and_eq_true] at hr
+    simp only [E.litsOK, Bool.and_eq_true] at hr
     have ⟨ha0, ha⟩ := iha hr.1 (fun d hd' => hd d (by simp [E.divisors, hd']))
     have ⟨hb0, hb⟩ := ihb hr.2 (fun d hd' => hd d (by simp [E.divisors, hd']))
-    have hbne : b.eval (fieldOps K) env ≠ 0 := hd b (by simp [E.divisors])
-    have hn : b.frac.1.eval (fieldOps K) env ≠ 0 := by
+    have hbne : b.eval o env ≠ 0 := hd b (by simp [E.divisors])
+    have hn : b.frac.1.eval o env ≠ 0 := by
       intro h0; apply hbne; rw [hb, h0, zero_div]
-    refine ⟨by simp [E.frac, mulE_eval, ha0, hn], ?_⟩
-    simp only [E.frac, E.eval, fieldOps_div, mulE_eval]; rw [ha, hb]; field_simp
+    refine ⟨by simp [E.frac, mulE_eval ho, ha0, hn], ?_⟩
+    simp only [E.frac, E.eval, ho.div, mulE_eval ho]; rw [ha, hb]; field_simp
   | neg a iha =>
-    simp only [E.isRat] at hr
+    simp only [E.litsOK] at hr
     have ⟨ha0, ha⟩ := iha hr (fun d hd' => hd d (by simp [E.divisors, hd']))
     refine ⟨by simpa [E.frac] using ha0, ?_⟩
-    simp only [E.frac, E.eval, fieldOps_neg]; rw [ha]; ring
-  | _ => simp [E.isRat] at hr
+    simp only [E.frac, E.eval, ho.neg]; rw [ha]; ring
+  | _ => simp [E.frac, E.eval, ho.lit]
 
-theorem fracEq_sound {a b : E} (h : fracEq a b = true) (env : Nat → K)
-    (ha : a.divOK env) (hb : b.divOK env) :
-    a.eval (fieldOps K) env = b.eval (fieldOps K) env := by
+theorem fracEq_sound {o : Ops K} (ho : FieldLike o) {a b : E} (h : fracEq a b = true) (env : Nat → K)
+    (ha : a.divOK o env) (hb : b.divOK o env) :
+    a.eval o env = b.eval o env := by
   simp only [fracEq, Bool.and_eq_true] at h
   obtain ⟨⟨hra, hrb⟩, hp⟩ := h
-  have ⟨ha0, hae⟩ := E.frac_sound a hra env ha
-  have ⟨hb0, hbe⟩ := E.frac_sound b hrb env hb
-  have hx := polyEq_sound (R := K) hp env
-  simp only [E.eval, ringOps_mul] at hx
-  rw [← E.eval_field_eq_ring _ a.frac_isPoly.1, ← E.eval_field_eq_ring _ a.frac_isPoly.2,
-      ← E.eval_field_eq_ring _ b.frac_isPoly.1, ← E.eval_field_eq_ring _ b.frac_isPoly.2] at hx
+  have ⟨ha0, hae⟩ := E.frac_sound ho a hra env ha
+  have ⟨hb0, hbe⟩ := E.frac_sound ho b hrb env hb
+  have hx := polyEq_sound' ho.toRingLike hp env
+  simp only [E.eval, ho.mul] at hx
+  rw [hae, hbe, div_eq_div_iff ha0 hb0]; exact hx
+
+theorem fracEqMod_sound {o : Ops K} (ho : FieldLike o) {hyps : List (E × E)} {cert : List E} {a b : E}
+    (h : fracEqMod hyps cert a b = true) (env : Nat → K)
+    (hh : ∀ p ∈ hyps, p.1.eval o env = p.2.eval o env)
+    (ha : a.divOK o env) (hb : b.divOK o env) :
+    a.eval o env = b.eval o env := by
+  simp only [fracEqMod, Bool.and_eq_true] at h
+  obtain ⟨⟨hra, hrb⟩, hp⟩ := h
+  have ⟨ha0, hae⟩ := E.frac_sound ho a hra env ha
+  have ⟨hb0, hbe⟩ := E.frac_sound ho b hrb env hb
+  have hx := polyEqMod_sound ho.toRingLike hp env hh
+  simp only [E.eval, ho.mul] at hx
   rw [hae, hbe, div_eq_div_iff ha0 hb0]; exact hx
 
 /-- if the allowed divisors are non-zero (and themselves well defined), so is `d` -/
-theorem divisorAllowed_ne {allowed : List E} {d : E} (h : divisorAllowed allowed d = true)
-    (env : Nat → K) (hd : d.divOK env)
-    (hall : ∀ a ∈ allowed, a.divOK env ∧ a.eval (fieldOps K) env ≠ 0) :
-    d.eval (fieldOps K) env ≠ 0 := by
+theorem divisorAllowed_ne {o : Ops K} (ho : FieldLike o) {allowed : List E} {d : E}
+    (h : divisorAllowed allowed d = true)
+    (env : Nat → K) (hd : d.divOK o env)
+    (hall : ∀ a ∈ allowed, a.divOK o env ∧ a.eval o env ≠ 0) :
+    d.eval o env ≠ 0 := by
   simp only [divisorAllowed, List.any_eq_true] at h
   obtain ⟨a, ha, hfa⟩ := h
-  rw [fracEq_sound hfa env hd (hall a ha).1]; exact (hall a ha).2
+  rw [fracEq_sound ho hfa env hd (hall a ha).1]; exact (hall a ha).2
 
 /-- a term all of whose divisors are (rational-function equal to) allowed ones is well defined
     as soon as the allowed divisors are non-zero -/
-theorem E.divOK_of_allowed {allowed : List E} (e : E)
+theorem E.divOK_of_allowed {o : Ops K} (ho : FieldLike o) {allowed : List E} (e : E)
     (h : e.divisors.all (divisorAllowed allowed) = true) (env : Nat → K)
-    (hall : ∀ a ∈ allowed, a.divOK env ∧ a.eval (fieldOps K) env ≠ 0) : e.divOK env := by
+    (hall : ∀ a ∈ allowed, a.divOK o env ∧ a.eval o env ≠ 0) : e.divOK o env := by
   induction e with
   | add a b iha ihb | sub a b iha ihb | mul a b iha ihb =>
     simp only [E.divisors, List.all_append, Bool.and_eq_true] at h
@@ -168,7 +164,7 @@ theorem E.divOK_of_allowed {allowed : List E} (e : E)
     have hb := ihb h.2.2
     intro d hd; simp only [E.divisors, List.mem_cons, List.mem_append] at hd
     rcases hd with rfl | hd | hd
-    · exact divisorAllowed_ne h.1 env hb hall
+    · exact divisorAllowed_ne ho h.1 env hb hall
     · exact iha h.2.1 d hd
     · exact hb d hd
   | neg a iha =>
@@ -176,20 +172,19 @@ theorem E.divOK_of_allowed {allowed : List E} (e : E)
     intro d hd; simp only [E.divisors] at hd; exact iha h d hd
   | _ => intro d hd; simp [E.divisors] at hd
 
-theorem Unit.fracAgrees_sound {u : Unit} {n : Nat} {spec : Nat → E} {allowed : List E}
+theorem Unit.fracAgrees_sound {o : Ops K} (ho : FieldLike o) {u : Unit} {n : Nat} {spec : Nat → E}
+    {allowed : List E}
     (h : u.fracAgrees n spec allowed = true) (j : Nat) (hj : j < n) (env : Nat → K)
-    (hall : ∀ a ∈ allowed, a.divOK env ∧ a.eval (fieldOps K) env ≠ 0) :
-    u.fval env j = (spec j).eval (fieldOps K) env ∧ (u.out j).leaves.all (fun e => e.divisors.all (divisorAllowed allowed)) = true := by
+    (hall : ∀ a ∈ allowed, a.divOK o env ∧ a.eval o env ≠ 0) :
+    (u.out j).eval o env = (spec j).eval o env := by
   simp only [Unit.fracAgrees, Bool.and_eq_true, List.all_eq_true, List.mem_range] at h
   have := h.2 j hj
-  unfold Unit.fval
   split at this
   · rename_i e he
     simp only [Bool.and_eq_true] at this
     rw [he]
-    refine ⟨fracEq_sound this.1.1 env (E.divOK_of_allowed e this.1.2 env hall)
-      (E.divOK_of_allowed _ this.2 env hall), ?_⟩
-    simp [Tree.leaves, this.1.2]
+    exact fracEq_sound ho this.1.1 env (E.divOK_of_allowed ho e this.1.2 env hall)
+      (E.divOK_of_allowed ho _ this.2 env hall)
   · simp at this
 
 end Glm
